@@ -199,3 +199,29 @@ def PR.readExactFuel : Nat → PR → Nat → Bytes → PR × Option Bytes
 def PR.readExact (r : PR) (n : Nat) : PR × Option Bytes := PR.readExactFuel (n + 1) r n []
 
 end E57
+
+namespace E57
+
+/-- `E57Reader::get_u64`: seek to `offset`, `read_exact` 8 bytes -/
+def devGetU64 (dev : Dev) (offset : Nat) : Option Nat :=
+  let bs := (dev.data.drop offset).take 8
+  if bs.length < 8 then none else some (leVal bs)
+
+/-- the loop of `validate_crc`: `read(page_size)` until it returns 0 -/
+def validateCrcLoop : Nat → PR → Bool
+  | 0, _ => true
+  | fuel + 1, r =>
+    match r.read r.pageSize with
+    | .ok (r', bs) => if bs.isEmpty then true else validateCrcLoop fuel r'
+    | _ => false
+
+/-- `E57Reader::validate_crc`: `some page_size` on success -/
+def validateCrc (dev : Dev) : Option Nat :=
+  match devGetU64 dev 40 with
+  | none => none
+  | some ps =>
+    match PR.new dev ps with
+    | .ok r => if validateCrcLoop (r.pages * 2 + 2) r then some ps else none
+    | _ => none
+
+end E57
